@@ -475,9 +475,9 @@ func uint64Codec(info *types.Info, c *ast.CallExpr) (role, order string, val ast
 		order = x.Name
 	}
 	switch {
-	case (fn.Name() == "PutUint64" || fn.Name() == "AppendUint64") && len(c.Args) == 2:
+	case (funcName(fn) == "PutUint64" || funcName(fn) == "AppendUint64") && len(c.Args) == 2:
 		return "enc", order, c.Args[1]
-	case fn.Name() == "Uint64" && len(c.Args) == 1:
+	case funcName(fn) == "Uint64" && len(c.Args) == 1:
 		return "dec", order, nil
 	}
 	return "", "", nil
